@@ -22,7 +22,7 @@ VECTOR = ["model: clone_* (erase original) = erase (real clone)",
           "monitor c18_keepstate / c18_default_pristine on the real clone",
           "monitor c18_default_resubmittable on the real clone (Validate and Submit accept)",
           "monitor c18_no_sharing: label sets of clone and original disjoint",
-          "Go-side monitor (1 address ranges overlap, 2 mutating the clone changed the original, 3 mutating the original changed the clone, 4 panic, 5 Submit of the clone changed the original)",
+          "Go-side monitor (1 address ranges overlap, 2 mutating the clone changed the original, 3 mutating the original changed the clone, 4 panic, 5 Submit of the clone changed the original, 6 clone holds a value outside the modelled domain)",
           "model self-check: labelled model erases to the value model and allocates fresh labels"]
 
 
